@@ -18,7 +18,9 @@ fields; DS-COPY - copy() hands deep-fresh value, error and bin arrays to the
 constructor.
 OP-DIRECT - the value of `a op b` is `a.value op b[.value]` (no delegation to
 another operator); DS-PURE has a second, inter-procedural pass (sa/effects.py
-with the numpy.ma copy=False model). DS-CTOR - no result of the number / array
+with the numpy.ma copy=False model). DS-SCALE - for a number / array factor the error is computed as e * |k|
+(e / |k|), not through the quadrature formula with a zero error.
+DS-CTOR - no result of the number / array
 branch of an operator is allocated with __new__ (only __init__ refuses a value
 broadcast to another shape than error and bins); helpers that merely forward to
 Dataset(...) are inlined before the rules run.
@@ -37,6 +39,7 @@ def check(ctx):
     ctx.run(dataset.check_ds_copy)
     ctx.run(dataset.check_op_direct)
     ctx.run(dataset.check_ds_ctor)
+    ctx.run(dataset.check_ds_scale)
 
 
 def variants(program):
